@@ -45,3 +45,9 @@ VARIANTS += [
     M('C01', 'rex-digit-class-too-wide', E(RX, "        if c.isdecimal():\n            return cats.Digit.code", "        if c.isdigit():\n            return cats.Digit.code"), rule='C01-REX-CLASS', key='fine_class:Digit'),
     M('C01', 'fuzzy-comparator-loses-exact-disjunct', E(BS, "    return (a >= b) or (a >= fuzz_down(b, epsilon))", "    return a >= fuzz_down(b, epsilon)"), rule='C01-CLOSE', key='fuzzy_greater_than'),
 ]
+
+VARIANTS += [
+    M('C01', 'tdda-text-split-with-splitlines', E(BS, "s.split('\\n')", "s.splitlines()"), rule='C01-STRIP', key='strip_lines'),
+    M('C01', 'characters-seen-capped-with-strings', E(RX, "                        n_strings[i] = len(frag_strings[i])\n                    frag_chars[i] = frag_chars[i].union(set(list(g)))", "                        n_strings[i] = len(frag_strings[i])\n                        frag_chars[i] = frag_chars[i].union(set(list(g)))"),
+      rule='C01-REX-EVIDENCE', key='frag_chars'),
+]
